@@ -1,5 +1,6 @@
 import Pearl.Model.Script
 import Pearl.Model.Worker
+import Pearl.Model.Record
 /-
 Driver state around the L2 store: configuration, a lower bound of wall-clock time (sum of `wait`s),
 blob birth times (for the rotation debounce), open/closed.  Nondeterministic background events
@@ -12,6 +13,7 @@ open Pearl Pearl.Script
 structure DState where
   store : Store := {}
   maxData : Nat := 1000000
+  klen : Nat := 4
   now : Nat := 0
   born : List (Nat × Nat) := []
   isOpen : Bool := false
@@ -67,7 +69,8 @@ def step (d : DState) (line : String) : DState × String :=
   match toks with
   | "cfg" :: rest =>
     let (s, o) := Script.step d.store line'
-    (noteBorn { store := s, maxData := cfgNat rest "maxdata" 1000000, now := 0, born := [], isOpen := true }, o)
+    (noteBorn { store := s, maxData := cfgNat rest "maxdata" 1000000, klen := cfgNat rest "key" 4,
+                now := 0, born := [], isOpen := true }, o)
   | ["wait", n] => ({ d with now := d.now + n.toNat?.getD 0 }, "ok")
   | ["open"] | ["open", "lazy"] =>
     if d.isOpen then (d, "err AlreadyOpen")
@@ -83,6 +86,10 @@ def step (d : DState) (line : String) : DState × String :=
       | ["restart"] | ["restart", "lazy"] =>
         let s := d.store.apply (.restart (toks.length == 2))
         ({ d with store := s, born := s.blobs.map (fun b => (b.id, d.now)) }, "ok")
+      | "flipsweep" :: _ =>
+        -- altered data bytes are never served (C05); the command ends with a reopen of the intact directory
+        let s := d.store.apply (.restart false)
+        ({ d with store := s, born := s.blobs.map (fun b => (b.id, d.now)) }, "sweep ok")
       | "dmgsweep" :: rest =>
         -- index files are a disposable cache: every damaged copy answers like the original (C03);
         -- the command ends with a reopen of the undamaged directory
@@ -107,6 +114,11 @@ def step (d : DState) (line : String) : DState × String :=
       | ["offload", _, _] => (d, "ok")
       | ["fsync"] => (d, "ok")
       | ["alive"] => (d, "alive")
+      | ["blobsum"] =>
+        -- L5: the bytes of every blob file, as a function of the records appended to it
+        (d, "#blobsum" ++ String.join (d.store.blobs.map fun b =>
+          let bytes := blobBytes d.klen (b.recs.map fun r => (r, genData r.data.len r.data.seed))
+          s!" {b.id}:{bytes.length}:{(crc32c bytes).toNat}"))
       | ["settle"] =>
         -- every requested dump has completed (`dumpDone`)
         ({ d with store := d.store.apply .settle, dumpRunning := false, deferred := false }, "ok")
